@@ -15,4 +15,4 @@ __CPROVER_assigns(verif_thrown)
 /*@ clause post.pixel src=assumed */
 __CPROVER_ensures(verif_thrown || __CPROVER_return_value == __CPROVER_uninterpreted_geoid_pix(ix, iy))
 /*@ clause post.pixel_range src=Geoid.hpp */
-__CPROVER_ensures(verif_thrown || (0.0 <= __CPROVER_return_value && __CPROVER_return_value <= 4294967295.0))
+__CPROVER_ensures(verif_thrown || (0.0 <= __CPROVER_return_value && __CPROVER_return_value <= 4294967295.0 && !signbit(__CPROVER_return_value)))
